@@ -136,6 +136,12 @@ func (fx *FnExec) call(fr *frame, st *State, res ssa.Value, cc *ssa.CallCommon) 
 			if a.Callee != key {
 				continue
 			}
+			if a.Ordinal > 0 {
+				cnt, _ := st.ghost["call|"+key+"|count"].(*Term)
+				if cnt == nil || cnt.Op != "bv" || !cnt.Val.IsInt64() || cnt.Val.Int64() != int64(a.Ordinal) {
+					continue
+				}
+			}
 			env := &CEnv{fx: fx, fr: fr, st: st, old: fr.entry, vars: fr.cvars, scope: cc.Pos()}
 			v := env.Eval(a.Expr)
 			t, ok := v.V.(*Term)
